@@ -336,6 +336,35 @@ def drive_checks(ctx, rng, k):
     ctx.mark_nontrivial(('drive', d, ptxt))
 
 
+def simple_pairs_outside_ascii(ctx):
+    """Case-insensitive mode is case-insensitive for str patterns outside ASCII too: letters with a simple one-to-one case partner
+    (no special folding rules) match their partner under IGNORECASE and do not under CASE; bytes fold ASCII only."""
+    pairs = [('\xe9', '\xc9'), ('\xf1', '\xd1'), ('\u0436', '\u0416'), ('\u03b4', '\u0394'), ('\xfc', '\xdc')]
+    n = 0
+    for lo, up in pairs:
+        shapes = [(lo, up), ('a' + lo + '*', 'A' + up + 'x'), ('[' + lo + ']', up), ('[!' + lo + ']', up), ('@(' + lo + '|b)', up), ('!(' + lo + ')', up),
+                  ('?' + lo, 'x' + up), ('[a' + lo + ']b', up + 'B')]
+        for pat, name in shapes:
+            neg = pat.startswith('[!') or pat.startswith('!(')
+            for mod in (F, G):
+                for extra, icase in ((('IGNORECASE',), True), ((), False), (('IGNORECASE', 'CASE'), False), (('FORCEWIN',), True), (('FORCEWIN', 'CASE'), False)):
+                    flags = flags_of(('EXTMATCH',) + extra)
+                    try:
+                        got = mod.compile(pat, flags=flags).match(name)
+                        got_t = any(re.compile(x).fullmatch(name) for x in mod.translate(pat, flags=flags)[0])
+                    except Exception as e:  # noqa: BLE001
+                        got = got_t = f'raised {type(e).__name__}'
+                    exp = (icase != neg)
+                    n += 1
+                    if got is not exp or got_t is not exp:
+                        ctx.disagree('case-insensitive mode does not fold a simple non-ASCII case pair (or case-sensitive mode does)|'
+                                     + ('glob' if mod is G else 'fnmatch'),
+                                     {'mode': 'simple-pairs', 'pattern': pat, 'name': name, 'flags': ['EXTMATCH'] + list(extra), 'expected': exp,
+                                      'match': got, 'via_translate': got_t})
+    ctx.evals(n)
+    ctx.count('non_ascii_pair_checks', n)
+
+
 def bracket_backslash_templates(ctx):
     """Windows mode, file-name and path mode: an escaped backslash written as a member of a bracket expression stands for the
     separator, so names that differ only in how they spell that separator get the same answer."""
@@ -367,6 +396,7 @@ def run(ctx):
     quick = ctx.quick
     if ctx.shard == 0:
         bracket_backslash_templates(ctx)
+        simple_pairs_outside_ascii(ctx)
     p = pool()
     idx = 0
     for n in (1, 2):
@@ -425,6 +455,9 @@ def run(ctx):
 
 
 def replay(ctx, w):
+    if w.get('mode') == 'simple-pairs':
+        simple_pairs_outside_ascii(ctx)
+        return ctx.violations or None
     if w.get('mode') == 'bracket-backslash':
         bracket_backslash_templates(ctx)
         return ctx.violations or None
